@@ -129,9 +129,13 @@ Definition is_dynamic (c : string) : bool := String.prefix "dynamic:" c.
     function together with the pointer parameters for which its caller handed
     over a private cell; the answer is [true] iff no store of any function
     reached this way is shared. *)
-Definition item_eqb (x y : string * list nat) : bool :=
-  String.eqb (fst x) (fst y) && Nat.eqb (List.length (snd x)) (List.length (snd y)) &&
-  forallb (fun k => existsb (Nat.eqb k) (snd y)) (snd x).
+Fixpoint nats_eqb (x y : list nat) : bool :=
+  match x, y with
+  | [], [] => true
+  | a :: x', c :: y' => Nat.eqb a c && nats_eqb x' y'
+  | _, _ => false
+  end.
+Definition item_eqb (x y : string * list nat) : bool := String.eqb (fst x) (fst y) && nats_eqb (snd x) (snd y).
 Definition stores_ok (f : string) (priv : list nat) : bool :=
   forallb (fun s => negb (String.eqb (fst (fst (fst s))) f) || store_private priv s) stores.
 Definition callees (f : string) : option (list (string * list nat)) :=
